@@ -25,6 +25,7 @@ import Pakhi.Lemmas.Control
 import Pakhi.Lemmas.EvalInv
 import Pakhi.Lemmas.ParseWF
 import Pakhi.Lemmas.ParseNP
+import Pakhi.Lemmas.OutMono
 
 namespace Pakhi
 namespace C13
@@ -171,6 +172,13 @@ example : progWF [Stmt.assign { kind := .first, var := default, indexes := [], i
                   Stmt.assign { kind := .re, var := default, indexes := [.list (.cons (.str ['k'] default) .nil) default], init := some (.num 0 default) } default,
                   Stmt.eos default] = true := by decide
 example (prog : List Stmt) (w : World) : StOK (fun _ _ => True) prog (St.init w) := stOK_init _ prog w
+
+/-- **everything printed before a fault is kept**: when a run stops with an error, the output reported with it extends
+    the output of every earlier state of the run — here: of the state the run (or its remainder) started from -/
+theorem error_keeps_output (prog : List Stmt) (g : GcMode) (f k : Nat) (cur : List Stmt) (s : St) (e : PErr)
+    (h : runLoop prog g f k cur s = .err e) : ∃ t, outText e.out = outText s.out ++ t := by
+  have := runLoop_out prog g f k cur s
+  rw [h] at this; exact this
 
 end C13
 end Pakhi
